@@ -231,5 +231,5 @@ def generate(ctx, jobs):
             seen.add(key)
             cases.append({"items": unpack(c["p"]), "ref": {int(x[0]): int(x[1]) for x in c["ref"]},
                           "tr": {int(x[0]): int(x[1]) for x in c["tr"]}, "kf": set(int(x) for x in c["kf"]),
-                          "src": cfg})
+                          "decls": set(int(x) for x in c.get("decls", [])), "src": cfg})
     return cases, info
